@@ -877,6 +877,7 @@ func checkBorderContiguity(p *Prog, r *Roles, res *Result, sp *ssa.Package) {
 	startF := p.structField("pkg/storage", "Partition", "Start")
 	endF := p.structField("pkg/storage", "Partition", "End")
 	checkRegionListingUnbounded(p, r, res)
+	checkWorkersOnAdjustedPartitions(p, r, res, sp)
 	for _, f := range p.AllFuncs {
 		if f.Pkg != sp || f.Synthetic != "" {
 			continue
@@ -1274,6 +1275,92 @@ func checkRegionListingUnbounded(p *Prog, r *Roles, res *Result) {
 			default:
 				res.bad("C13-R5", construct, p.pos(c.Pos()), "the regions of the interval are listed by a single call with a positive (or non-constant) limit: an interval that spans more regions gets a truncated partition list, the tail is scanned by no worker, and range, count and stream reads succeed with a prefix of the keys")
 			}
+		}
+	}
+}
+
+// checkWorkersOnAdjustedPartitions: what the workers of a scan are started on is the realigned partition list, on every
+// path of the driver (range reads and compactions alike).
+func checkWorkersOnAdjustedPartitions(p *Prog, r *Roles, res *Result, sp *ssa.Package) {
+	scanFn, _ := parallelScanDriver(p, sp, func(c ssa.CallInstruction) bool {
+		sc := c.Common().StaticCallee()
+		return sc != nil && sc.Name() == "Wait" && sc.Signature.Recv() != nil && isNamed(sc.Signature.Recv().Type(), "sync", "WaitGroup")
+	})
+	if scanFn == nil {
+		return
+	}
+
+	var raw ssa.Value
+	var adjust []*ssa.Call
+	for _, c := range callsIn(scanFn) {
+		if call, ok := c.(*ssa.Call); ok && r.is(call, r.KVGetPartitions) {
+			if ex := extractsOf(call); len(ex) > 0 {
+				raw = ex[0]
+			}
+		}
+	}
+	if raw != nil {
+		// the realigning function: the one the raw list is handed to
+		isAdjustArg := func(v ssa.Value) bool {
+			if v.Referrers() == nil {
+				return false
+			}
+			for _, ref := range *v.Referrers() {
+				if call, ok := ref.(*ssa.Call); ok && call.Common().StaticCallee() != nil && call.Common().StaticCallee().Pkg == sp {
+					for _, a := range call.Common().Args {
+						if a == v {
+							adjust = append(adjust, call)
+							return true
+						}
+					}
+				}
+			}
+			return false
+		}
+		construct := funcName(scanFn) + ": workers are started on the realigned partitions on every path"
+		var leak ssa.Instruction
+		checkUse := func(at ssa.Instruction, v ssa.Value) {
+			for _, alt := range resolveAll(v) {
+				if alt == raw {
+					leak = at
+				}
+			}
+		}
+		for _, b := range scanFn.Blocks {
+			for _, ins := range b.Instrs {
+				switch x := ins.(type) {
+				case *ssa.UnOp:
+					if x.Op == token.MUL {
+						if _, ok := x.X.(*ssa.Alloc); ok && types.Identical(x.Type(), raw.Type()) && !isAdjustArg(x) {
+							checkUse(x, x)
+						}
+					}
+				case *ssa.MakeClosure:
+					for _, bnd := range x.Bindings {
+						if cell, ok := bnd.(*ssa.Alloc); ok {
+							if pt, ok := cell.Type().Underlying().(*types.Pointer); ok && types.Identical(pt.Elem(), raw.Type()) {
+								if sts, _, ok := reachingStores(cell, x); ok {
+									for _, st := range sts {
+										checkUse(x, st.Val)
+									}
+								}
+							}
+						}
+					}
+				case *ssa.Range:
+					if types.Identical(x.X.Type(), raw.Type()) {
+						checkUse(x, x.X)
+					}
+				}
+			}
+		}
+		switch {
+		case len(adjust) == 0:
+			res.bad("C13-R5", construct, p.pos(scanFn.Pos()), "the partition list of the engine is never handed to the realigning function")
+		case leak != nil:
+			res.bad("C13-R5", construct, p.pos(leak.Pos()), "on some path (e.g. for compactions) the workers are started on the engine's raw partition list instead of the realigned one: a border between two records of one key splits that key over two workers - a compaction then deletes the index record in one worker and keeps a version in the other, and the deleted key is readable again")
+		default:
+			res.ok("C13-R5", construct, p.pos(adjust[0].Pos()), "every use of the partition list after the engine call sees the result of the realigning function only")
 		}
 	}
 }
